@@ -144,8 +144,12 @@ def layout_path_scenario(chk):
     pairs = [(0, 1), (1, 0), (0, 2), (2, 0)]
     cases = []
     meta = {}
-    files = [LAY.__file__, DTY.__file__]
-    for a, b in pairs:
+    import glob as _glob
+    pkgdir = os.path.dirname(P.__file__)
+    allfiles = _glob.glob(os.path.join(pkgdir, '*.py')) + _glob.glob(os.path.join(pkgdir, 'extras', '*.py'))
+    # (layout engine only, line by line) and (every source line of the package, sampled)
+    for files, pairs_ in (([LAY.__file__, DTY.__file__], pairs), (allfiles, pairs[:2] if q else pairs)):
+      for a, b in pairs_:
         _, _, nsteps = sched.run_with_preemption(job(a), job(b), None, files)
         stride = max(1, nsteps // (150 if q else 1500))
         for k in range(1, nsteps + 1, stride):
@@ -154,8 +158,9 @@ def layout_path_scenario(chk):
             cid = len(cases) + 1
             cases.append({'id': cid, 'calls': calls})
             meta[cid] = {'threads': ['pformat(%r, width=%d)' % jobs[a], 'pformat(%r, width=%d)' % jobs[b]],
-                         'thread_0_preempted_before_its_layout_line': k, 'results': [ra, rb]}
-            chk.nontrivial(('layout', a, b, k))
+                         'traced': 'layout engine' if len(files) == 2 else 'whole package',
+                         'thread_0_preempted_before_its_traced_line': k, 'results': [ra, rb]}
+            chk.nontrivial(('lines', len(files), a, b, k))
     v, st = common.tlc_batch('ConcurrentCalls', CC_CFG, cases, os.path.join(chk.workdir, 'cc'), tags=('SAFE',),
                              min_per_shard=100)
     chk.add_model(st)
